@@ -457,13 +457,6 @@ func fieldVarOf(fa *ssa.FieldAddr) *types.Var {
 	return st.Field(fa.Field)
 }
 
-func nameOr(f *types.Func) string {
-	if f == nil {
-		return "<none>"
-	}
-	return "names." + f.Name()
-}
-
 func varName(v *types.Var) string {
 	if v == nil {
 		return "<none>"
